@@ -12,6 +12,9 @@ R07.5 "errorcode and errorlevel are set exactly where the rule is false": for ea
       check_hierarchy the row filter of invalid mode and the CASE that gates errorcode/errorlevel in all mode are evaluated in
       SQL three-valued logic over the rule outcome {TRUE, FALSE, NULL} (and over when/then outcomes for datapoint rules) and
       must select exactly the FALSE outcome
+R07.6 an errorcode / errorlevel that the rule declares is emitted as that value - 0 and "" are values; only a rule without
+      one yields NULL: the helper every erCode / erLevel / error_code / error_level is translated through is evaluated (E6) over
+      {None, 0, "", 1, 2.5, "E1"}
 Not decided: the values of the rule expressions themselves; hierarchy's rule ordering (HRDAGAnalyzer).
 """
 from __future__ import annotations
@@ -189,6 +192,40 @@ def run(rep: Report, tier: str) -> None:  # noqa: C901
                     if fail != (outcome is False):
                         rep.add(transp.fnd("R07.5", f"check_datapoint/{'when' if has_when else 'plain'}/W={w}/T={t}", dp, d.lineno,
                                            f"datapoint rule with when={w}, then={t}: bool_var is {outcome} but the datapoint is {'reported as failing (errorcode set / kept in invalid mode)' if fail else 'not reported'}"))
+    # ---- R07.6 an errorcode / errorlevel that is GIVEN is emitted as that value (0 and "" are values, only absence is NULL) ----
+    rep.rule("R07.6", "errorcode / errorlevel literal: NULL exactly when the rule declares none (finite decision table of the literal helper, E6)")
+    from sa import structmodel as sm
+    from sa.e6 import Interp, Raised, Unmodelled
+    helpers: Set[str] = set()
+    n_sites = 0
+    for fn_ in P.classes[TR].methods.values():
+        for n in walk_no_nested(fn_.node):
+            if isinstance(n, ast.Call) and isinstance(n.func, ast.Attribute) and isinstance(n.func.value, ast.Name) and n.func.value.id == "self" and n.args \
+                    and isinstance(n.args[0], ast.Attribute) and n.args[0].attr in ("erCode", "erLevel", "error_code", "error_level"):
+                helpers.add(n.func.attr)
+                n_sites += 1
+                rep.instance("R07.6", f"site/{fn_.name}/{n.args[0].attr}", sample=src(n))
+    rep.floor("R07.6 errorcode/errorlevel translation sites", n_sites, 6)
+    if not helpers:
+        raise AnalysisError("no helper translating erCode / erLevel / error_code / error_level found in the SQL transpiler")
+    for h in sorted(helpers):
+        hf = P.classes[TR].methods[h]
+        for value in (None, 0, "", 1, 2.5, "E1"):
+            it = Interp(P, externals={"self._to_sql_literal": lambda value=None, **kw: f"⟦literal {value!r}⟧"})
+            try:
+                got = it.call(hf, {"self": sm.MTranspiler(), "value": value})
+            except Unmodelled as e:
+                raise AnalysisError(f"R07.6: {h} is outside the evaluator's language: {e}")
+            except Raised as e:
+                got = f"<raises {getattr(e.exc, 'kind', e.exc)}>"
+            rep.instance("R07.6", f"{h}/{value!r}", sample={"sql": got})
+            if isinstance(got, bool):
+                continue  # a predicate over the value (e.g. `is it numeric`), not its translation
+            is_null = "NULL" in str(got).upper() and "⟦" not in str(got)
+            if (value is None) != is_null:
+                rep.add(transp.fnd("R07.6", f"{h}/{value!r}", hf, hf.node.lineno,
+                                   f"{h}({value!r}) gives `{got}`: " + ("a rule without errorcode/errorlevel must leave the column NULL" if value is None else
+                                                                     f"the declared value {value!r} (a legal errorcode / errorlevel) is replaced by NULL, so failing datapoints are reported without it")))
     rep.assumptions = ["SQL three-valued logic (Kleene) for AND/OR/NOT, IS [NOT] FALSE, CASE", "the pivot column naming helpers _has_col / _val_col are the only producers of those names"]
 
 
